@@ -277,7 +277,8 @@ def pathOpen (fds : Fds) (m : Mem) (fd p len oflags res : Nat) : List Res :=
       match insertFd fds k with
       | (_, _, false) => ([] : List Res)
       | (t, newFd, true) =>
-        if m.has res 4 then [{ err := .errno 0, writes := [Wr.bytes res (bytesLE 4 newFd)], fds := some t }]
+        if m.has res 4 then [{ err := .errno 0, writes := [Wr.bytes res (bytesLE 4 newFd)], fds := some t,
+                               alloc := 8 * (DescTable.slots t - DescTable.slots fds) }]
         else []     -- the new descriptor is closed again: EFAULT, covered by `nz`
     { err := .nz } :: (opened .dir ++ (if isDir then [] else opened .file))
 
@@ -310,7 +311,7 @@ def sockAccept (fds : Fds) (m : Mem) (fd res : Nat) : List Res :=
       (match insertFd fds .conn with
        | (_, _, false) => []
        | (t, newFd, true) =>
-         [{ err := .errno 0, fds := some t,
+         [{ err := .errno 0, fds := some t, alloc := 8 * (DescTable.slots t - DescTable.slots fds),
             writes := if m.has res 4 then [Wr.bytes res (bytesLE 4 newFd)] else [] }])
   | _ => rE ebadf
 
@@ -378,11 +379,31 @@ def modelled1 : List String :=
    "fd_renumber", "fd_close", "fd_fdstat_get", "fd_filestat_get", "fd_seek", "fd_tell", "proc_exit", "sched_yield"]
 
 /-- the 24 functions of this file -/
-def modelled2 : List String :=
-  ["fd_readdir", "path_open", "path_filestat_get", "path_readlink", "fd_fdstat_set_flags", "fd_filestat_set_size",
-   "fd_filestat_set_times", "path_filestat_set_times", "fd_allocate", "fd_advise", "fd_datasync", "fd_sync",
-   "fd_fdstat_set_rights", "path_create_directory", "path_remove_directory", "path_unlink_file", "path_rename",
-   "path_symlink", "path_link", "sock_accept", "sock_recv", "sock_send", "sock_shutdown", "proc_raise"]
+inductive Fn2 where
+  | fd_readdir | path_open | path_filestat_get | path_readlink | fd_fdstat_set_flags | fd_filestat_set_size
+  | fd_filestat_set_times | path_filestat_set_times | fd_allocate | fd_advise | fd_datasync | fd_sync
+  | fd_fdstat_set_rights | path_create_directory | path_remove_directory | path_unlink_file | path_rename
+  | path_symlink | path_link | sock_accept | sock_recv | sock_send | sock_shutdown | proc_raise
+deriving Repr, DecidableEq
+
+def Fn2.all : List Fn2 :=
+  [.fd_readdir, .path_open, .path_filestat_get, .path_readlink, .fd_fdstat_set_flags, .fd_filestat_set_size,
+   .fd_filestat_set_times, .path_filestat_set_times, .fd_allocate, .fd_advise, .fd_datasync, .fd_sync,
+   .fd_fdstat_set_rights, .path_create_directory, .path_remove_directory, .path_unlink_file, .path_rename,
+   .path_symlink, .path_link, .sock_accept, .sock_recv, .sock_send, .sock_shutdown, .proc_raise]
+
+def Fn2.name : Fn2 → String
+  | .fd_readdir => "fd_readdir" | .path_open => "path_open" | .path_filestat_get => "path_filestat_get"
+  | .path_readlink => "path_readlink" | .fd_fdstat_set_flags => "fd_fdstat_set_flags"
+  | .fd_filestat_set_size => "fd_filestat_set_size" | .fd_filestat_set_times => "fd_filestat_set_times"
+  | .path_filestat_set_times => "path_filestat_set_times" | .fd_allocate => "fd_allocate" | .fd_advise => "fd_advise"
+  | .fd_datasync => "fd_datasync" | .fd_sync => "fd_sync" | .fd_fdstat_set_rights => "fd_fdstat_set_rights"
+  | .path_create_directory => "path_create_directory" | .path_remove_directory => "path_remove_directory"
+  | .path_unlink_file => "path_unlink_file" | .path_rename => "path_rename" | .path_symlink => "path_symlink"
+  | .path_link => "path_link" | .sock_accept => "sock_accept" | .sock_recv => "sock_recv" | .sock_send => "sock_send"
+  | .sock_shutdown => "sock_shutdown" | .proc_raise => "proc_raise"
+
+def modelled2 : List String := Fn2.all.map Fn2.name
 
 def modelled : List String := modelled1 ++ modelled2
 
@@ -413,33 +434,39 @@ def call1 (fixed : Bool) (h : Host) (fds : Fds) (m : Mem) (fn : String) (a : Lis
   | _, _ => none
 
 /-- the 24 functions of this file; 32-bit parameters are reduced with `w32`, 64-bit ones with `% 2^64` -/
-def call2 (fixedRecv : Bool) (h : Host) (fds : Fds) (m : Mem) (fn : String) (a : List Nat) : Option (List Res) :=
+def call2e (fixedRecv : Bool) (h : Host) (fds : Fds) (m : Mem) (fn : Fn2) (a : List Nat) : Option (List Res) :=
   match fn, a with
-  | "fd_readdir", [fd, b, l, c, r] => some (fdReaddir h fds m (w32 fd) (w32 b) (w32 l) (c % W64) (w32 r))
-  | "path_open", [fd, _, p, l, o, _, _, _, r] => some (pathOpen fds m (w32 fd) (w32 p) (w32 l) (w32 o) (w32 r))
-  | "path_filestat_get", [fd, _, p, l, r] => some (pathFilestatGet fds m (w32 fd) (w32 p) (w32 l) (w32 r))
-  | "path_readlink", [fd, p, l, b, bl, r] => some (pathReadlink fds m (w32 fd) (w32 p) (w32 l) (w32 b) (w32 bl) (w32 r))
-  | "fd_fdstat_set_flags", [fd, f] => some (fdFdstatSetFlags fds (w32 fd) (w32 f))
-  | "fd_filestat_set_size", [fd, _] => some (fdFilestatSetSize fds (w32 fd))
-  | "fd_filestat_set_times", [fd, _, _, f] => some (fdFilestatSetTimes fds (w32 fd) (w32 f))
-  | "path_filestat_set_times", [fd, _, p, l, _, _, f] => some (pathFilestatSetTimes fds m (w32 fd) (w32 p) (w32 l) (w32 f))
-  | "fd_allocate", [fd, o, l] => some (fdAllocate fds (w32 fd) (o % W64) (l % W64))
-  | "fd_advise", [fd, _, _, adv] => some (fdAdvise fds (w32 fd) (w32 adv))
-  | "fd_datasync", [fd] => some (fdSyncLike fds (w32 fd))
-  | "fd_sync", [fd] => some (fdSyncLike fds (w32 fd))
-  | "fd_fdstat_set_rights", [_, _, _] => some (rE enosys)
-  | "path_create_directory", [fd, p, l] => some (pathOp fds m (w32 fd) (w32 p) (w32 l))
-  | "path_remove_directory", [fd, p, l] => some (pathOp fds m (w32 fd) (w32 p) (w32 l))
-  | "path_unlink_file", [fd, p, l] => some (pathOp fds m (w32 fd) (w32 p) (w32 l))
-  | "path_rename", [fd, p, l, fd2, p2, l2] => some (pathOp2 fds m (w32 fd) (w32 p) (w32 l) (w32 fd2) (w32 p2) (w32 l2))
-  | "path_symlink", [o, ol, fd, n, nl] => some (pathSymlink fds m (w32 o) (w32 ol) (w32 fd) (w32 n) (w32 nl))
-  | "path_link", [fd, _, p, l, fd2, p2, l2] => some (pathOp2 fds m (w32 fd) (w32 p) (w32 l) (w32 fd2) (w32 p2) (w32 l2))
-  | "sock_accept", [fd, _, r] => some (sockAccept fds m (w32 fd) (w32 r))
-  | "sock_recv", [fd, iovs, cnt, f, r, r2] => some (sockRecv fixedRecv fds m (w32 fd) (w32 iovs) (w32 cnt) (w32 f) (w32 r) (w32 r2))
-  | "sock_send", [fd, iovs, cnt, f, r] => some (sockSend fds m (w32 fd) (w32 iovs) (w32 cnt) (w32 f) (w32 r))
-  | "sock_shutdown", [fd, how] => some (sockShutdown fds (w32 fd) (w32 how))
-  | "proc_raise", [_] => some (rE enosys)
+  | .fd_readdir, [fd, b, l, c, r] => some (fdReaddir h fds m (w32 fd) (w32 b) (w32 l) (c % W64) (w32 r))
+  | .path_open, [fd, _, p, l, o, _, _, _, r] => some (pathOpen fds m (w32 fd) (w32 p) (w32 l) (w32 o) (w32 r))
+  | .path_filestat_get, [fd, _, p, l, r] => some (pathFilestatGet fds m (w32 fd) (w32 p) (w32 l) (w32 r))
+  | .path_readlink, [fd, p, l, b, bl, r] => some (pathReadlink fds m (w32 fd) (w32 p) (w32 l) (w32 b) (w32 bl) (w32 r))
+  | .fd_fdstat_set_flags, [fd, f] => some (fdFdstatSetFlags fds (w32 fd) (w32 f))
+  | .fd_filestat_set_size, [fd, _] => some (fdFilestatSetSize fds (w32 fd))
+  | .fd_filestat_set_times, [fd, _, _, f] => some (fdFilestatSetTimes fds (w32 fd) (w32 f))
+  | .path_filestat_set_times, [fd, _, p, l, _, _, f] => some (pathFilestatSetTimes fds m (w32 fd) (w32 p) (w32 l) (w32 f))
+  | .fd_allocate, [fd, o, l] => some (fdAllocate fds (w32 fd) (o % W64) (l % W64))
+  | .fd_advise, [fd, _, _, adv] => some (fdAdvise fds (w32 fd) (w32 adv))
+  | .fd_datasync, [fd] => some (fdSyncLike fds (w32 fd))
+  | .fd_sync, [fd] => some (fdSyncLike fds (w32 fd))
+  | .fd_fdstat_set_rights, [_, _, _] => some (rE enosys)
+  | .path_create_directory, [fd, p, l] => some (pathOp fds m (w32 fd) (w32 p) (w32 l))
+  | .path_remove_directory, [fd, p, l] => some (pathOp fds m (w32 fd) (w32 p) (w32 l))
+  | .path_unlink_file, [fd, p, l] => some (pathOp fds m (w32 fd) (w32 p) (w32 l))
+  | .path_rename, [fd, p, l, fd2, p2, l2] => some (pathOp2 fds m (w32 fd) (w32 p) (w32 l) (w32 fd2) (w32 p2) (w32 l2))
+  | .path_symlink, [o, ol, fd, n, nl] => some (pathSymlink fds m (w32 o) (w32 ol) (w32 fd) (w32 n) (w32 nl))
+  | .path_link, [fd, _, p, l, fd2, p2, l2] => some (pathOp2 fds m (w32 fd) (w32 p) (w32 l) (w32 fd2) (w32 p2) (w32 l2))
+  | .sock_accept, [fd, _, r] => some (sockAccept fds m (w32 fd) (w32 r))
+  | .sock_recv, [fd, iovs, cnt, f, r, r2] => some (sockRecv fixedRecv fds m (w32 fd) (w32 iovs) (w32 cnt) (w32 f) (w32 r) (w32 r2))
+  | .sock_send, [fd, iovs, cnt, f, r] => some (sockSend fds m (w32 fd) (w32 iovs) (w32 cnt) (w32 f) (w32 r))
+  | .sock_shutdown, [fd, how] => some (sockShutdown fds (w32 fd) (w32 how))
+  | .proc_raise, [_] => some (rE enosys)
   | _, _ => none
+
+/-- the same, by name -/
+def call2 (fixedRecv : Bool) (h : Host) (fds : Fds) (m : Mem) (fn : String) (a : List Nat) : Option (List Res) :=
+  match Fn2.all.find? (fun f => f.name == fn) with
+  | some f => call2e fixedRecv h fds m f a
+  | none => none
 
 /-- all 46 functions: the alternatives of a call (`fixed` / `fixedRecv` select the repaired variants of poll_oneoff /
 sock_recv) -/
@@ -448,9 +475,24 @@ def call (fixed fixedRecv : Bool) (h : Host) (fds : Fds) (m : Mem) (fn : String)
   | some r => some [r]
   | none => call2 fixedRecv h fds m fn a
 
-/-- Output regions the signature designates, over the naturals (no wrap-around); mirror of `designated` in
-harness/cmd/hc15/spec.go (the harness compares the two tables on every generated case). -/
+/-- designated output regions of the 24 functions of this file (arguments already reduced to 32 bits) -/
+def designated2e (m : Mem) : Fn2 → List Nat → List (Nat × Nat)
+  | .fd_readdir, [_, b, l, _, r] => [(b, l), (r, 4)]
+  | .path_open, [_, _, _, _, _, _, _, _, r] => [(r, 4)]
+  | .path_filestat_get, [_, _, _, _, r] => [(r, 64)]
+  | .path_readlink, [_, _, _, b, bl, r] => [(b, bl), (r, 4)]
+  | .sock_accept, [_, _, r] => [(r, 4)]
+  | .sock_recv, [_, iovs, cnt, _, r, r2] => iovRegions m iovs cnt 0 ++ [(r, 4), (r2, 2)]
+  | .sock_send, [_, _, _, _, r] => [(r, 4)]
+  | _, _ => []
+
+/-- Output regions the signature designates, over the naturals (no wrap-around; arguments already reduced to 32
+bits); mirror of `designated` in harness/cmd/hc15/spec.go (the harness compares the two tables on every generated
+case). -/
 def designated (h : Host) (m : Mem) (fn : String) (a : List Nat) : List (Nat × Nat) :=
+  match Fn2.all.find? (fun f => f.name == fn) with
+  | some f => designated2e m f a
+  | none =>
   match fn, a with
   | "poll_oneoff", [_, o, n, r] => [(o, 32 * n), (r, 4)]
   | "fd_read", [_, iovs, cnt, r] => iovRegions m iovs cnt 0 ++ [(r, 4)]
@@ -470,13 +512,6 @@ def designated (h : Host) (m : Mem) (fn : String) (a : List Nat) : List (Nat × 
   | "fd_filestat_get", [_, r] => [(r, 64)]
   | "fd_seek", [_, _, _, r] => [(r, 8)]
   | "fd_tell", [_, r] => [(r, 8)]
-  | "fd_readdir", [_, b, l, _, r] => [(b, l), (r, 4)]
-  | "path_open", [_, _, _, _, _, _, _, _, r] => [(r, 4)]
-  | "path_filestat_get", [_, _, _, _, r] => [(r, 64)]
-  | "path_readlink", [_, _, _, b, bl, r] => [(b, bl), (r, 4)]
-  | "sock_accept", [_, _, r] => [(r, 4)]
-  | "sock_recv", [_, iovs, cnt, _, r, r2] => iovRegions m iovs cnt 0 ++ [(r, 4), (r2, 2)]
-  | "sock_send", [_, _, _, _, r] => [(r, 4)]
   | _, _ => []
 
 /-- every byte of the write lies in one of the regions -/
